@@ -73,6 +73,13 @@ def run(ctx):
         ctx.analysed += a.analysed[:60]
         n = panics.report(ctx, a, PANIC_TABLE, "panic")
         ctx.floor("panic sites audited", n, 30)
+    # the position state the generators read (castle rights, en-passant file, checkers, pins) is produced by
+    # play_unchecked / null_move; a history-level break of move generation can sit there (C02, C03 own the rules)
+    from . import c02, c03
+    expl = ctx.explanation
+    c02.run(ctx)
+    c03.run(ctx)
+    ctx.explanation = expl
     ctx.assumptions += [
         "atoms of the set algebra (getter applications, table look-ups) are treated as independent; equivalence proved this way is sound",
         "slider attack sets are contained in the empty-board rays (C05) -- used to identify the en-passant pre-test with its specification",
